@@ -139,10 +139,22 @@ RECURSIVE SubsetSums(_, _)
 SubsetSums(cs, d) == IF cs = <<>> THEN {0}
                      ELSE LET r == SubsetSums(Tail(cs), d)  c == Head(cs) IN
                           IF c.kind = "deposit" /\ TokDenom[c.tok] = d THEN r \cup {x + c.amt : x \in r} ELSE r
+\* A faulted end block may have applied only some of the pending claims (the tally stops at the failing one and the rest
+\* wait for the next block): the deposits it did apply are, per denom, a PREFIX of that denom's pending deposits (nonce
+\* order) whose amounts explain the observed inflow; an executed-batch claim is done when its batch is gone.
+RECURSIVE StillPending(_, _)
+StillPending(cs, rem) ==
+  IF cs = <<>> THEN <<>>
+  ELSE LET c == Head(cs)  d == TokDenom[c.tok] IN
+       IF c.kind = "deposit"
+       THEN IF rem[d] >= c.amt /\ c.amt > 0 THEN StillPending(Tail(cs), [rem EXCEPT ![d] = @ - c.amt])
+            ELSE <<c>> \o StillPending(Tail(cs), [rem EXCEPT ![d] = 0])
+       ELSE IF \E b \in batches' : b.nonce = c.nonce THEN <<c>> \o StillPending(Tail(cs), rem)
+            ELSE StillPending(Tail(cs), rem)
 TrEndBlock == IsEvent("EndBlock") /\ LET e == Trace[l]  m == EndBlockResult
                                       legit == {tx \in Gone : tx.id \in m.burned \ burned} IN
   /\ Obs(e.obs) /\ res' = e.res
-  /\ claims' = <<>>
+  /\ claims' = IF e.fired THEN StillPending(claims, [d \in Denoms |-> Inflow(d)]) ELSE <<>>
   /\ burned' = burned \cup {tx.id : tx \in legit}
   /\ burnedSum' = [d \in Denoms |-> burnedSum[d] + SumCost({tx \in legit : TokDenom[tx.tok] = d})]
   /\ deposited' = [d \in Denoms |-> deposited[d] + Inflow(d)]
